@@ -597,6 +597,8 @@ impl Expansion<'_> {
                         Some(parse_quote! { #ty: derive_more::core::fmt::#trait_ident })
                     }));
                 }
+                // Explicit `bound(...)` predicates apply with or without a format string.
+                bounds.extend(self.attrs.common.bounds.0.clone());
                 has_shared_attr
             }
         };
